@@ -32,7 +32,7 @@ CLAIMS = {
         "design": "DESIGN.md section 4 C04",
     },
     "C13": {
-        "text": "Bounded-fuel symbolic check: machines with each feedback path (mutually enabling always, an action raising its own trigger, onDone re-completing its own state, done.invoke re-entering the invoking state, parallel regions each running an always chain) with symbolic maxIterations in [1,5], natural chain length in [0,7] or unbounded, trigger = start() or an event: every call returns within F chain steps (a fuel counter raising a BaseException turns non-termination into a counterexample), chains not longer than the bound run to their natural end, the configuration is legal and the next event is processed afterwards; bursts of symbolic size (plain, re-arming a delayed self-raise, forwarded to a child actor) sent one by one or with send_events() are all processed whatever maxIterations is; under the async engine a heartbeat task keeps advancing while a chain runs. Both engines.",
+        "text": "Bounded-fuel symbolic check: machines with each feedback path (mutually enabling always, an action raising its own trigger, onDone re-completing its own state, done.invoke re-entering the invoking state, parallel regions each running an always chain) with symbolic maxIterations in [1,5], natural chain length in [0,7] or unbounded, trigger = start() or an event: every call returns within F chain steps (a fuel counter raising a BaseException turns non-termination into a counterexample), chains not longer than the bound run to their natural end, the configuration is legal and the next event is processed afterwards; mixed chains whose feedback link is raised during the eventless phase or by an entry action; bursts of symbolic size (plain, re-arming a delayed self-raise, forwarded to a child actor) sent one by one or with send_events() are all processed whatever maxIterations is; after every event of a symbolic sequence with failing nested pure/choose/enqueueActions expansions the counters that implement the bounds are back at their rest values (inductive step against accumulation); under the async engine a heartbeat task keeps advancing while a chain runs. Both engines.",
         "note": "NARROWER THAN THE STATEMENT: termination only in the bounded-fuel sense, for maxIterations <= 5 and the listed feedback kinds. Trusts CrossHair/z3, the virtual-time stubs; self-enqueueing pure/choose/enqueueActions expansion (MAX_ACTION_DEPTH) is not exercised.",
         "design": "DESIGN.md section 4 C13",
     },
@@ -67,7 +67,7 @@ CLAIMS = {
         "design": "DESIGN.md section 4 C09",
     },
     "C14": {
-        "text": "Bounded symbolic check under a virtual clock: symbolic sequences of lifecycle operations (start, send of 5 event kinds, stop, snapshot->restore, advance time) on a lifecycle machine with an after timer, a delayed self-send, an invoked service, a failing service and a spawned child that owns a heartbeat timer: status only moves along the lifecycle automaton; start() idempotent while running/done/error, raises on a stopped interpreter, resumes a restored one; send() outside 'running' changes and queues nothing; stop() idempotent in every status and afterwards no timer/service/delayed-send task or thread, no registry entry and no running descendant actor remains and 100 ms of virtual time produce no activity. Both engines.",
+        "text": "Bounded symbolic check under a virtual clock: symbolic sequences of lifecycle operations (start, send of 5 event kinds, stop, snapshot->restore, advance time) on a lifecycle machine with an after timer, a delayed self-send, an invoked service, a failing service and a spawned child that owns a heartbeat timer: status only moves along the lifecycle automaton; start() idempotent while running/done/error, raises on a stopped interpreter, resumes a restored one; send() outside 'running' changes and queues nothing; stop() idempotent in every status - also with an event still queued (unsettled send right before stop) - and afterwards no timer/service/delayed-send task or thread, no registry entry and no running descendant actor remains and 100 ms of virtual time produce no activity. Both engines.",
         "note": "Trusts CrossHair/z3 and the virtual-time stubs; census = asyncio tasks of the virtual loop / pending virtual threads / interpreter registries, not OS threads. Sequences of 3-4 (quick) or 3-5 (thorough) operations; operations are sequential (no stop() from another thread mid-macrostep).",
         "design": "DESIGN.md section 4 C14",
     },
@@ -82,18 +82,18 @@ CLAIMS = {
         "design": "DESIGN.md section 4 C11",
     },
     "C18": {
-        "text": "Bounded symbolic check: re-spellings of a canonical config (transition string/object/list forms, always vs '' vs both, cond vs guard, action string/list/object, '100' vs 100, omitted initial; all combinations within feature groups) parse to the same deep fingerprint and trace; ANY target string (symbolic, bounded length) that the resolver maps from the source to the same node leads both engines to the same configuration; resolve_target_state is total (node of the machine or StateNotFoundError); unresolvable dotted/#-targets raise StateNotFoundError and change nothing; every single-point corruption (102 JSON subtrees x 9 replacements of another JSON type) of a feature-rich config and 12 top-level forms are accepted consistently or rejected with an XStateMachineError - never a raw TypeError/AttributeError/KeyError/ValueError.",
+        "text": "Bounded symbolic check: re-spellings of a canonical config (transition string/object/list forms, always vs '' vs both, cond vs guard, action string/list/object, '100' vs 100, omitted initial; all combinations within feature groups) parse to the same deep fingerprint and trace; ANY target string (symbolic, bounded length) that the resolver maps from the source to the same node leads both engines to the same configuration; resolve_target_state is total (node of the machine or StateNotFoundError); unresolvable dotted/#-targets raise StateNotFoundError and change nothing; every single-point corruption (102 JSON subtrees x 12 replacements of another JSON type incl. the falsy ones; a wrong-typed target / guard / cond / src / initial must be rejected at creation) of a feature-rich config and 12 top-level forms are accepted consistently or rejected with an XStateMachineError - never a raw TypeError/AttributeError/KeyError/ValueError.",
         "note": "Trusts CrossHair/z3 and the fingerprint in harness/c18.py. Corrupted configs are concrete after the symbolic (position, replacement) choice and are parsed/run natively inside the path. The 'silently something else' clause is checked for unresolvable targets only. Logic auto-discovery (LogicLoader) on malformed configs is C19's side.",
         "design": "DESIGN.md section 4 C18",
     },
     "C15": {
-        "text": "Bounded symbolic check under a virtual clock: symbolic sequences of 17 actor operations (4 spawn forms incl. id re-use, generated ids and a non-blocking spawn; sendTo with a symbolic addressing form out of 8; two delayed sends with ids; cancel; stopChild; forwardTo; child->parent sendParent / id-less delayed sendParent / escalate; grandchild spawn; child completion; time; stop) on a parent machine with children and a grandchild, both engines: after every operation the children map and the system registry equal a reference registry, every message is delivered exactly once to exactly the actor the documented lookup order of _resolve_actor_target names (or nobody when unresolvable / ambiguous / stopped), in sending order per receiver; cancel removes that send only; after stopChild / stop() no descendant is running, registered or ticking and the parent hears nothing from stopped children.",
+        "text": "Bounded symbolic check under a virtual clock: symbolic sequences of 18 actor operations (4 spawn forms incl. id re-use, generated ids and a non-blocking spawn; sendTo with a symbolic addressing form out of 8; two delayed sends with ids; cancel; stopChild; forwardTo; child->parent sendParent / id-less delayed sendParent / escalate; grandchild spawn with its own systemId and a grandchild->parent reply addressed by systemId; child completion; time; stop) on a parent machine with children and a grandchild, both engines: after every operation the children map and the system registry equal a reference registry, every message is delivered exactly once to exactly the actor the documented lookup order of _resolve_actor_target names (or nobody when unresolvable / ambiguous / stopped), in sending order per receiver; cancel removes that send only; after stopChild / stop() no descendant is running, registered or ticking and the parent hears nothing from stopped children.",
         "note": "Trusts CrossHair/z3, the reference registry in harness/c15.py and the virtual-time stubs (sync polling runner = baton-passing coroutine on an OS thread). One machine family (PM/kid/gkid), sequences of 3-4 (quick) or 4-5 (thorough) operations, depth 2, fan-out <= 4. Under-specified cases (service-key fallback with several explicit-id children; finished child) are accepted either way.",
         "design": "DESIGN.md section 4 C15",
     },
     "C16": {
-        "text": "Bounded symbolic check: the determinism machine DT (3-region parallel state whose regions all have children named idle/busy, a nested compound, deep and shallow history of the parallel state, re-entry, region-local and broadcast events, context updates) is run on a symbolic event sequence under a symbolic hash layout - the hash values of a group of K StateNodes are permuted by a symbolic Lehmer code, which permutes the iteration order of every set[StateNode] the engine holds - on both engines; the full trace (ordered entry/exit/transition actions with event types, configuration and context after every event) must equal the identity-layout sync trace, so neither layout nor engine is observable.",
-        "note": "Trusts CrossHair/z3 and the hash-pinning stub (vf/env.py): distinct small ints below the table size make CPython's set iteration ascending in hash, so a permutation of the ints is a permutation of iteration order; address-based hashing of a real run is one such layout. One machine (15 nodes), sequences of 3 (quick) / 4 events, groups of K=4 (quick) / 4-6 nodes permuted at a time. PYTHONHASHSEED (str hashing), separate processes and generated-id independence are outside.",
+        "text": "Bounded symbolic check: the determinism machine DT (3-region parallel state whose regions all have children named idle/busy, a nested compound, deep and shallow history of the parallel state, re-entry, region-local and broadcast events, context updates) is run on a symbolic event sequence under a symbolic hash layout - the hash values of a group of K StateNodes are permuted by a symbolic Lehmer code, which permutes the iteration order of every set[StateNode] the engine holds - on both engines; the full trace (ordered entry/exit/transition actions with event types, configuration and context after every event) must equal the identity-layout sync trace, so neither layout nor engine is observable. In addition the machine is run in child processes under a solver-chosen PYTHONHASHSEED (1..16 quick / 1..64 thorough) with natural address hashing on both engines and the pure transition() API: traces equal across seeds and across the three APIs.",
+        "note": "Trusts CrossHair/z3 and the hash-pinning stub (vf/env.py): distinct small ints below the table size make CPython's set iteration ascending in hash, so a permutation of the ints is a permutation of iteration order; address-based hashing of a real run is one such layout. One machine (15 nodes), sequences of 3 (quick) / 4 events, groups of K=4 (quick) / 4-6 nodes permuted at a time. The PYTHONHASHSEED part is a sample of seed values run natively (a process boundary cannot be traced). Generated-id independence is outside.",
         "design": "DESIGN.md section 4 C16",
     },
     "C17": {
@@ -102,7 +102,7 @@ CLAIMS = {
         "design": "DESIGN.md section 4 C17",
     },
     "C19": {
-        "text": "Bounded symbolic check: (pythonic_equiv) a neutral machine description with 12 symbolic feature toggles (flat / nested with re-used state name / nested / parallel; entry-exit lists; 6 transition forms; two candidates per event; after; always; invoke; compound onDone; tags+meta; history; root properties incl. on AND always; context override) denoted as hand-written JSON, build_machine objects, MachineBuilder calls and a StateMachine subclass: deep fingerprint and 5 traces of each Python style equal create_machine(json), and a second build from the same definition objects after the first machine ran equals a fresh machine. (discovery) config whose action/guard/service references are chosen symbolically from pools with both spellings, built-ins, spawn_ directives, composite guards nested 3 deep, stateIn; provider instance or module offering a symbolic subset in snake or camel spelling: creation succeeds iff every referenced user name is offered, then all are bound and running never raises ImplementationMissingError. (precedence) a user action named log/assign/raise/sendTo supplied via MachineLogic, a MachineLogic subclass or discovery runs instead of the built-in. (camel_map) both copies of _snake_to_camel agree on every symbolic string and equal the reference on plain snake_case.",
+        "text": "Bounded symbolic check: (pythonic_equiv) a neutral machine description with 12 symbolic feature toggles (flat / nested with re-used state name / nested / parallel; entry-exit lists; 6 transition forms; two candidates per event; after; always; invoke; compound onDone; tags+meta; history; root properties incl. on AND always; context override) denoted as hand-written JSON, build_machine objects, MachineBuilder calls and a StateMachine subclass: deep fingerprint and 5 traces of each Python style equal create_machine(json), and a second build from the same definition objects after the first machine ran equals a fresh machine. (discovery) config whose action/guard/service references are chosen symbolically from pools with both spellings, built-ins, spawn_ directives, composite guards nested 3 deep, stateIn; provider instance or module offering a symbolic subset in snake or camel spelling: creation succeeds iff every referenced user name is offered, then all are bound and running never raises ImplementationMissingError. (precedence) a user action named log/assign/raise/sendTo supplied via MachineLogic, a MachineLogic subclass or discovery runs instead of the built-in. (rebuild_independence) State objects shared by two build_machine() calls with different transition lists: each build equals its own denotation and the user's State/context objects are never modified. (subclass_logic) MachineLogic subclass chains of depth 1-3 with the defining level of each callable symbolic: everything is registered and the most derived definition runs. (camel_map) both copies of _snake_to_camel agree on every symbolic string and equal the reference on plain snake_case.",
         "note": "Trusts CrossHair/z3, the hand-written JSON denotation in harness/c19.py and c18.fingerprint. Each pythonic_equiv item varies 2-4 toggles exhaustively with the others at a baseline; transition targets are siblings of their source. One known finding is listed (discovery ignores user implementations named like a built-in).",
         "design": "DESIGN.md section 4 C19",
     },
